@@ -16,7 +16,7 @@ import lib
 LEVEL = "proof"
 REPO = lib.REPO
 WS = b" \t\n\x0b\x0c\r\x85\xa0"
-SIG_PRIMS = "loc:hash-op-prims-location"
+SIG_PRIMS = "loc:hash-op-prims-location"   # fixed in /repo (make_atom `with_loc`); a recurrence is a VIOLATION
 SIG_LONE = "loc:lone-hash-shifted"
 
 PRIM_NAMES = {}          # filled from the implementation's table dump (name bytes -> int)
